@@ -51,6 +51,7 @@ ImplPressureSign == ImplTables => ReqPressureSign(X, O) /\ ReqNoSpuriousPV(X, O)
 ImplRecoverVolume == ImplTables => ReqRecoverVolume(X, O)
 ImplRecoverGibbs == ImplTables => ReqRecoverGibbs(X, O)
 ImplRecoverBulk == ImplTables => ReqRecoverBulk(X, O)
+ImplShiftInvariance == ImplTables => ReqShiftInvariance(X, O)
 ImplBulkModulusObject == ImplTables => ReqBulkModulusObject(X, O)
 ImplThermalExpansion == ImplTables => ReqThermalExpansion(X, O)
 ImplHeatCapacity == ImplTables => ReqHeatCapacity(X, O)
@@ -79,6 +80,7 @@ Verdict(n) ==
     [] n = "ImplPerTemperatureElectronic" -> ImplPerTemperatureElectronic [] n = "ImplPhononUnit" -> ImplPhononUnit
     [] n = "ImplPressureSign" -> ImplPressureSign [] n = "ImplRecoverVolume" -> ImplRecoverVolume
     [] n = "ImplRecoverGibbs" -> ImplRecoverGibbs [] n = "ImplRecoverBulk" -> ImplRecoverBulk
+    [] n = "ImplShiftInvariance" -> ImplShiftInvariance
     [] n = "ImplBulkModulusObject" -> ImplBulkModulusObject [] n = "ImplThermalExpansion" -> ImplThermalExpansion
     [] n = "ImplHeatCapacity" -> ImplHeatCapacity [] n = "ImplHeatCapacityPolyfit" -> ImplHeatCapacityPolyfit
     [] n = "ImplGruneisen" -> ImplGruneisen [] n = "ConformsStatus" -> ConformsStatus [] n = "ConformsLen" -> ConformsLen
@@ -87,7 +89,7 @@ Verdict(n) ==
     [] n = "ConformsFiles" -> ConformsFiles
 Clauses == {"ImplExact", "ImplCompletes", "ImplLength", "ImplFailedFitReported", "ImplFitStart",
             "ImplFiles", "ImplPerTemperatureElectronic", "ImplPhononUnit",
-            "ImplPressureSign", "ImplRecoverVolume", "ImplRecoverGibbs", "ImplRecoverBulk", "ImplBulkModulusObject",
+            "ImplPressureSign", "ImplRecoverVolume", "ImplRecoverGibbs", "ImplRecoverBulk", "ImplShiftInvariance", "ImplBulkModulusObject",
             "ImplThermalExpansion", "ImplHeatCapacity", "ImplHeatCapacityPolyfit", "ImplGruneisen", "ConformsStatus",
             "ConformsLen", "ConformsRows", "ConformsBulkModulus", "ConformsTables", "ConformsStencils", "ConformsFiles"}
 Report ==
